@@ -279,6 +279,10 @@ class Sub(EventListener):
             self.bad.append("published %s = %r but %s() returns %r" % (k, c, gname(g), now))
 
 
+class _F64(float):
+    """Stand-in for numpy.float64: a float subclass."""
+
+
 def read(stat, getters):
     out = {}
     for g in getters:
@@ -323,7 +327,9 @@ def run_tally(case):
                            case.get("regime"), ex.get("_kappa", 1.0), msg))
         if alpha is not None:
             try:
-                ci = st.confidence_interval(alpha)
+                # (every third query passes alpha as an instance of a float subclass,
+                # as numpy.float64 is)
+                ci = st.confidence_interval(_F64(alpha) if step % 3 == 0 else alpha)
             except Exception as e:
                 return ("getter", "confidence_interval(%r) raised %s: %s with %d observations"
                         % (alpha, type(e).__name__, e, len(xs)))
